@@ -6,7 +6,6 @@ import (
 	"context"
 	"errors"
 	"fmt"
-	"maps"
 	"math"
 	"os"
 	"reflect"
@@ -1829,7 +1828,11 @@ func (m *Machine) ParseStates(states S) S {
 			return ok
 		})
 	}
-	return slices.Collect(maps.Keys(seen))
+	// only the known ones, in the passed order
+	return slicesFilter(states, func(name string, _ int) bool {
+		_, ok := seen[name]
+		return ok
+	})
 }
 
 // VerifyStates verifies an array of state names and returns an error in case
